@@ -182,25 +182,43 @@ def judge_cut(c, m, light):
     img = np.array(c["img"], np.int64).reshape(ns, nf)
     mskb = np.array(c["msk"], np.int64).reshape(ns, nf)
     cut = c["cut"]
-    kernels = [("tosparse_u16", np.uint16, int(cut)), ("tosparse_f32", np.float32, float(cut))] \
-        if c["style"] == "nested" else [("tosparse_u32", np.uint32, float(cut))]
-    for kname, dt, kcut in kernels:
-        for mname, mdt, mval in (("uint8", np.uint8, 1), ("bool", bool, 1), ("uint8x255", np.uint8, 255))[:1 if light else 3]:
-            msk = (mskb * mval).astype(mdt)
-            data = img.astype(dt)
-            row = np.full((ns, nf), P16, np.uint16)
-            col = np.full((ns, nf), P16, np.uint16)
-            val = np.full((ns, nf), poison_of(dt), dt)
-            route = "cImageD11.%s[msk %s]" % (kname, mname)
-            if kname == "tosparse_u32":
-                ok, ret = J.call(route, m.c.tosparse_u32, data, msk, row.ravel(), col.ravel(), val.ravel(), kcut)
-            else:
-                ok, ret = J.call(route, getattr(m.c, kname), data, msk, row, col, val, kcut)
-            if ok:
-                J.eq(route, "return", int(ret), c["ret"])
-                J.eq(route, "row", row.ravel(), expect(c["row"], np.uint16))
-                J.eq(route, "col", col.ravel(), expect(c["col"], np.uint16))
-                J.eq(route, "val", val.ravel(), expect(c["val"], dt))
+    # value variants: order-preserving maps of the model's small grey levels (v > cut  <=>  f(v) > f_cut), so the
+    # model's selection, order and coordinates stay the expectation while the kernels see values at the far end of
+    # each dtype: uint16 with the top bit set, uint32 beyond 2^24 where binary32 cannot tell neighbours apart
+    # (f(cut + 1) = f_cut + 1 rounds onto f_cut as a float), float32 between the integers
+    B24 = 1 << 24
+    VARIANTS = {
+        "tosparse_u16": [("", lambda v: v, lambda k: int(k)),
+                         ("hi", lambda v: np.where(v > 0, 65533 + v, 0), lambda k: int(65533 + k))],
+        "tosparse_u32": [("", lambda v: v, lambda k: float(k)),
+                         ("2^24", lambda v: np.where(v > 0, B24 + 2 * v - 1, 0), lambda k: float(B24 + 2 * k)),
+                         ("2^31", lambda v: np.where(v > 0, (1 << 31) + 256 * v, 0), lambda k: float((1 << 31) + 256 * k))],
+        "tosparse_f32": [("", lambda v: v, lambda k: float(k)),
+                         ("half", lambda v: np.where(v > 0, v - 0.5, 0), lambda k: float(k))],
+    }
+    kernels = [("tosparse_u16", np.uint16), ("tosparse_f32", np.float32)] if c["style"] == "nested" else [("tosparse_u32", np.uint32)]
+    for kname, dt in kernels:
+        for vtag, fmap, cmap in VARIANTS[kname][:1 if light else None]:
+            kcut = cmap(cut)
+            for mname, mdt, mval in (("uint8", np.uint8, 1), ("bool", bool, 1), ("uint8x255", np.uint8, 255))[:1 if (light or vtag) else 3]:
+                msk = (mskb * mval).astype(mdt)
+                data = fmap(img).astype(dt)
+                row = np.full((ns, nf), P16, np.uint16)
+                col = np.full((ns, nf), P16, np.uint16)
+                val = np.full((ns, nf), poison_of(dt), dt)
+                route = "cImageD11.%s[msk %s%s]" % (kname, mname, ", values " + vtag if vtag else "")
+                if kname == "tosparse_u32":
+                    ok, ret = J.call(route, m.c.tosparse_u32, data, msk, row.ravel(), col.ravel(), val.ravel(), kcut)
+                else:
+                    ok, ret = J.call(route, getattr(m.c, kname), data, msk, row, col, val, kcut)
+                if ok:
+                    mv = np.array(c["val"], np.int64)
+                    ev = np.full(mv.shape, poison_of(dt), dt)
+                    ev[mv != -1] = np.asarray(fmap(mv[mv != -1])).astype(dt)
+                    J.eq(route, "return", int(ret), c["ret"])
+                    J.eq(route, "row", row.ravel(), expect(c["row"], np.uint16))
+                    J.eq(route, "col", col.ravel(), expect(c["col"], np.uint16))
+                    J.eq(route, "val", val.ravel(), ev)
     if c["frame"] and c["style"] == "nested":
         efr = c["frame"][0]
         allones = all(v != 0 for v in c["msk"])
